@@ -291,6 +291,8 @@ C04.vis: parts that are not PER-visible (X.691 10.3.21; a PATTERN constraint sta
     serial(m, ctx, &consts);
     render(m, ctx, &consts);
     outer_marker(m, ctx);
+    // "named numbers are resolved": in the governing type's scope (= C09.scope)
+    crate::rules::c09::scope(m, ctx, "C04.scope");
 }
 
 fn serial(m: &Model, ctx: &mut Ctx, consts: &dyn Fn(&str) -> Option<Val>) {
